@@ -2,6 +2,9 @@
 #include "../../../common/debug.h"
 #include "../../../common/debug_messages.h"
 #include "../core/interpreter.h"
+#ifdef CB_VERIF
+#include "../../../common/verif_hooks.h"
+#endif
 #include <iostream>
 #include <string>
 
@@ -67,6 +70,9 @@ int SimpleEventLoop::register_task(AsyncTask task) {
 
     tasks_[task_id] = task;
 
+#ifdef CB_VERIF
+    CBV_SCHED("spawn %d auto=%d", task_id, task.auto_yield ? 1 : 0);
+#endif
     task_queue_.push_back(task_id);
 
     debug_msg(DebugMsgId::ASYNC_TASK_REGISTER, task.function_name.c_str(),
@@ -84,8 +90,14 @@ void SimpleEventLoop::run() {
     while (!task_queue_.empty()) {
         int task_id = task_queue_.front();
         task_queue_.pop_front();
+#ifdef CB_VERIF
+        CBV_SCHED("turn %d run", task_id);
+#endif
 
         bool should_continue = execute_one_step(task_id);
+#ifdef CB_VERIF
+        CBV_SCHED("%s %d", should_continue ? "requeue" : "complete", task_id);
+#endif
 
         if (should_continue) {
             // タスクがまだ完了していない場合、キューの最後に追加
@@ -111,9 +123,15 @@ void SimpleEventLoop::run_one_cycle() {
     // キューの先頭タスクを1ステップだけ実行
     int task_id = task_queue_.front();
     task_queue_.pop_front();
+#ifdef CB_VERIF
+    CBV_SCHED("turn %d cycle", task_id);
+#endif
 
     // v0.13.0: 現在実行中のタスクはスキップ（再帰実行を防ぐ）
     if (task_id == current_executing_task_id_) {
+#ifdef CB_VERIF
+        CBV_SCHED("skip %d", task_id);
+#endif
         debug_msg(DebugMsgId::EVENT_LOOP_SKIP_EXECUTING, task_id);
         // キューに戻す
         task_queue_.push_back(task_id);
@@ -121,6 +139,9 @@ void SimpleEventLoop::run_one_cycle() {
     }
 
     bool should_continue = execute_one_step(task_id);
+#ifdef CB_VERIF
+    CBV_SCHED("%s %d", should_continue ? "requeue" : "complete", task_id);
+#endif
 
     if (should_continue) {
         // タスクがまだ完了していない場合、キューの最後に追加
@@ -171,8 +192,14 @@ bool SimpleEventLoop::execute_one_step(int task_id) {
             task.is_waiting = false;
             task.waiting_for_task_id = -1;
             debug_msg(DebugMsgId::EVENT_LOOP_TASK_RESUME, task_id);
+#ifdef CB_VERIF
+            CBV_SCHED("unblocked %d", task_id);
+#endif
         } else {
             // まだ待機中
+#ifdef CB_VERIF
+            CBV_SCHED("blocked %d on %d", task_id, task.waiting_for_task_id);
+#endif
             return true; // キューに戻す
         }
     }
@@ -194,16 +221,25 @@ bool SimpleEventLoop::execute_one_step(int task_id) {
         current_time_ms = static_cast<int64_t>(tv.tv_sec) * 1000 +
                           static_cast<int64_t>(tv.tv_usec) / 1000;
 #endif
+#ifdef CB_VERIF
+        current_time_ms = cbv_clock(current_time_ms);
+#endif
 
         if (current_time_ms < task.wake_up_time_ms) {
             // まだsleep中
             debug_msg(DebugMsgId::SLEEP_TASK_SLEEPING, task_id,
                       task.wake_up_time_ms - current_time_ms);
+#ifdef CB_VERIF
+            CBV_SCHED("asleep %d now=%lld wake=%lld", task_id, (long long)current_time_ms, (long long)task.wake_up_time_ms);
+#endif
             return true; // 継続（まだsleep中）
         } else {
             // sleep完了
             task.is_sleeping = false;
             debug_msg(DebugMsgId::SLEEP_TASK_WOKE_UP, task_id);
+#ifdef CB_VERIF
+            CBV_SCHED("woke %d now=%lld wake=%lld", task_id, (long long)current_time_ms, (long long)task.wake_up_time_ms);
+#endif
 
             // sleep専用タスク（function_nodeがnullptr）の場合、即座に完了
             if (task.function_node == nullptr) {
@@ -245,6 +281,9 @@ bool SimpleEventLoop::execute_one_step(int task_id) {
         gettimeofday(&tv, nullptr);
         current_time_ms = static_cast<int64_t>(tv.tv_sec) * 1000 +
                           static_cast<int64_t>(tv.tv_usec) / 1000;
+#endif
+#ifdef CB_VERIF
+        current_time_ms = cbv_clock(current_time_ms);
 #endif
 
         if (current_time_ms >= task.timeout_ms) {
@@ -381,6 +420,9 @@ bool SimpleEventLoop::execute_one_step(int task_id) {
                 const ASTNode *stmt =
                     body->statements[task.current_statement_index].get();
 
+#ifdef CB_VERIF
+                CBV_SCHED("exec %d stmt=%zu", task_id, task.current_statement_index);
+#endif
                 // ステートメントを実行
                 interpreter_.execute_statement(stmt);
 
@@ -470,6 +512,9 @@ bool SimpleEventLoop::execute_one_step(int task_id) {
         }
     } catch (const YieldException &e) {
         // yieldで中断
+#ifdef CB_VERIF
+        CBV_SCHED("yield %d loop=%d stmt=%zu", task_id, e.is_from_loop ? 1 : 0, task.current_statement_index);
+#endif
 
         // タスクスコープを保存
         *task.task_scope = interpreter_.current_scope();
@@ -494,6 +539,9 @@ bool SimpleEventLoop::execute_one_step(int task_id) {
         return true; // キューに戻す
     } catch (const ReturnException &e) {
         // return文で完了
+#ifdef CB_VERIF
+        CBV_SCHED("return %d stmt=%zu", task_id, task.current_statement_index);
+#endif
         if (task.task_scope) {
             *task.task_scope = interpreter_.current_scope();
         }
@@ -892,6 +940,10 @@ void SimpleEventLoop::sleep_task(int task_id, int64_t duration_ms) {
     gettimeofday(&tv, nullptr);
     current_time_ms = static_cast<int64_t>(tv.tv_sec) * 1000 +
                       static_cast<int64_t>(tv.tv_usec) / 1000;
+#endif
+#ifdef CB_VERIF
+    current_time_ms = cbv_clock(current_time_ms);
+    CBV_SCHED("sleep %d ms=%lld wake=%lld", task_id, (long long)duration_ms, (long long)(current_time_ms + duration_ms));
 #endif
 
     task.is_sleeping = true;
